@@ -54,6 +54,20 @@ def run(chk):
     # legacy (pre-0.3) composeinfo documents: the facts exist only inside the id and must come back when the document is loaded
     lcases = [{"s": r[1][0], "version": rng.choice(["0.2", "0.1", "0.0"]), "want": [a["date"], a["ct"], a["respin"]]}
               for a, r in zip(cases, ires) if r[0] == "ok" and a["respin"] < 10 ** 7][:N[chk.tier] // 4]
+    # ... also in the other documented spellings of the same facts: the long suffixes and a missing respin
+    alt = []
+    for c in lcases:
+        date, ct, respin = c["want"]
+        tail = {"nightly": ".n", "test": ".t"}.get(ct)
+        long_ = {"nightly": ".nightly", "test": ".test"}.get(ct)
+        end = "%s%s.%d" % (date, tail or {"production": "", "ci": ".ci", "development": ".d"}.get(ct, ""), respin)
+        if not c["s"].endswith(end):
+            continue
+        head = c["s"][:-len(end)]
+        if long_:
+            alt.append({"s": "%s%s%s.%d" % (head, date, long_, respin), "version": c["version"], "want": [date, ct, respin]})
+        alt.append({"s": head + end[:-len(".%d" % respin)], "version": c["version"], "want": [date, ct, 0]})
+    lcases = lcases + alt[:len(lcases)]
     ir = core.ImplRunner("str_composeid", fn="impl_legacy_doc", per_case_timeout=10.0)
     try:
         lres = ir.run(lcases)
